@@ -12,8 +12,12 @@
     pattern to the ground type and every [θ v] only names placeholders visible from [v]'s
     universe, then [relate] succeeds, emits no goal, creates no variable, and binds exactly the
     pattern's unknowns to their [θ]-values (which is the unique, hence most general, unifier).
-    Gap to the full statement: unknowns on both sides (var/var unions, occurs-check failures
-    versus absence of a unifier, universe promotion), lifetimes (goals), integer / float kinds. *)
+    Gap of THIS lemma to the full statement: unknowns on both sides (var/var unions,
+    occurs-check failures versus absence of a unifier, universe promotion), lifetimes (goals),
+    integer / float kinds.  Later steps: Infer/Complete2.v (prior bindings and unions),
+    Infer/Complete3.v (unknowns on both sides; numeric var leaf cases), Infer/Complete4.v (numeric
+    unknowns in one-sided matching), Infer/Exact.v (the result represents exactly the ground
+    unifiers). *)
 
 From Coq Require Import Arith PeanoNat Lia.
 From Chalk Require Import Ir.Syntax Ir.Fold Infer.Table Infer.Unify Infer.Closed Infer.Sym Infer.Sound.
